@@ -29,10 +29,11 @@ def helper_closure(prog, allowed, depth=3):
     """{root path: the allowed root it is covered by}"""
     cov = {root(a): root(a) for a in allowed}
     callers = callers_of(prog)
+    known = {root(p) for p in prog.bodies}
     for _ in range(depth):
         changed = False
         for tgt, cs in callers.items():
-            if tgt in cov or not cs or tgt not in {root(p) for p in prog.bodies}:
+            if tgt in cov or not cs or tgt not in known:
                 continue
             if all(c in cov for c in cs):
                 cov[tgt] = sorted({cov[c] for c in cs})[0]
